@@ -1,0 +1,30 @@
+//go:build verif
+
+package cloudprovider
+
+// Third hook file for the C12 correspondence harness (/verif): runs the real lookup dispatcher loop
+// (cloudProviderLookupDispatcher.run) on channels the harness owns, so that the harness can drive
+// it event by event (send a source, see the provider call, take an answer, cancel the context) and
+// record the exact order of those rendezvous.  Add-only; compiled only with -tags verif.
+
+import (
+	"context"
+
+	"github.com/sirupsen/logrus"
+	"golang.org/x/time/rate"
+
+	"github.com/atlassian/gostatsd"
+)
+
+// VerifRunDispatcher runs the dispatcher loop until it returns.
+func VerifRunDispatcher(ctx context.Context, logger logrus.FieldLogger, limiter *rate.Limiter, provider gostatsd.CloudProvider,
+	ipSource <-chan gostatsd.Source, infoSink chan<- gostatsd.InstanceInfo) {
+	ld := cloudProviderLookupDispatcher{
+		logger:        logger,
+		limiter:       limiter,
+		cloudProvider: provider,
+		ipSource:      ipSource,
+		infoSink:      infoSink,
+	}
+	ld.run(ctx)
+}
